@@ -832,3 +832,41 @@ Proof.
   { destruct Hst as [E|E]; [left; apply rnone_run; auto|right; apply gone_run; auto]. }
   split; auto. intro Ec. destruct Hk' as (Hk1 & _). destruct (Hk1 Ec) as [A|[A|A]]; rewrite A in Hfin; destruct Hfin; discriminate.
 Qed.
+
+(* ---------- a remote unit cancelled before it was started is never submitted ---------- *)
+
+Lemma rem_cancelled_step a r :
+  r_cancelled r = true -> r_started r = false -> r_job r = false ->
+  r_cancelled (rem_step true a r) = true /\ r_started (rem_step true a r) = false /\ r_job (rem_step true a r) = false.
+Proof.
+  destruct r as [j re s c st]; simpl. intros -> -> ->. destruct a; simpl; auto.
+Qed.
+
+Lemma rem_cancelled_run acts : forall r,
+  r_cancelled r = true -> r_started r = false -> r_job r = false ->
+  r_started (rem_run true acts r) = false /\ r_job (rem_run true acts r) = false.
+Proof.
+  unfold rem_run. induction acts as [|a l IH]; intros r H1 H2 H3; simpl; auto.
+  destruct (rem_cancelled_step a r H1 H2 H3) as (A & B & C). apply IH; auto.
+Qed.
+
+(* after a Cancel or Release of a unit whose remote work had not started, no later step submits it:
+   whatever happens afterwards (the node becomes reachable, further cancels, releases) *)
+Theorem remote_cancel_stops_job a before after :
+  a = RmCancel \/ a = RmRelease ->
+  r_started (rem_run true before rem0) = false ->
+  let r := rem_run true after (rem_step true a (rem_run true before rem0)) in
+  r_started r = false /\ r_job r = false.
+Proof.
+  intros Ha Hs r. apply rem_cancelled_run.
+  - destruct Ha as [-> | ->]; simpl; rewrite Hs; reflexivity.
+  - destruct Ha as [-> | ->]; simpl; rewrite Hs; reflexivity.
+  - destruct Ha as [-> | ->]; simpl; rewrite Hs; reflexivity.
+Qed.
+
+(* a Cancel that leaves the job alone (seeded mutation): the node comes back and the cancelled unit
+   is submitted, while its record says Failed *)
+Theorem remote_cancel_without_stopping_refuted :
+  let r := rem_run false [RmCancel; RmReach true; RmTry] rem0 in
+  r_cancelled r = true /\ r_state r = Failed /\ r_started r = true.
+Proof. vm_compute. auto. Qed.
